@@ -123,8 +123,46 @@ def corr_parse(patterns, flagsets, bytes_modes=(0, 1), nproc=16, skip=None):
                 samples.append({'pattern': pats[k], 'flags': flag_names(fv), 'bytes': bool(isb),
                                 'regex': dec(outs[k][3:]) if outs[k].startswith('ok ') else outs[k]})
     r = result(evals, len(texts), dis, samples, {'cases_per_flagset': per_flag})
-    r['disagreeing_patterns'] = [(d['pattern'], d['flags']) for d in dis if not d['bytes']][:400]
+    r['disagreeing_patterns'] = rank_disagreements([d for d in dis if not d['bytes']])
     return r
+
+
+def rank_disagreements(dis, examine=3000, keep=400):
+    """Order the patterns on which the regex text differs for the directed search: first those where the two regex
+    texts (model = the code as it was modelled, impl = the code now) *behave* differently on some short name
+    (a semantic difference, found by running both through `re`), shortest first; then the rest."""
+    import itertools
+    import random
+    import re as _re
+    if len(dis) > examine:
+        rnd = random.Random(len(dis))
+        dis = dis[:examine // 3] + rnd.sample(dis[examine // 3:], examine - examine // 3)
+    sem, other = [], []
+    for d in dis:
+        hit = None
+        if isinstance(d['impl'], str) and isinstance(d['model'], str) and d['impl'].startswith('^') and d['model'].startswith('^'):
+            try:
+                ri, rm = _re.compile(d['impl']), _re.compile(d['model'])
+            except (_re.error, RecursionError):
+                hit = ''
+            else:
+                lits = [c for c in dict.fromkeys(d['pattern']) if c.isalnum()][:3]
+                al = lits + [c for c in ('/', '.', 'x', '\n') if c not in lits]
+                for n in range(0, 4):
+                    for t in itertools.product(al, repeat=n):
+                        nm = ''.join(t)
+                        if bool(ri.fullmatch(nm)) != bool(rm.fullmatch(nm)):
+                            hit = nm
+                            break
+                    if hit is not None:
+                        break
+        else:
+            hit = ''     # one side raised: a behavioural difference by itself
+        (sem if hit is not None else other).append((d['pattern'], d['flags']))
+    key = lambda x: (len(x[0]), x[0])
+    sem = sorted(set(sem), key=key)
+    other = sorted(set(other), key=key)
+    return sem[:keep - min(len(other), keep // 4)] + other[:keep // 4]
 
 
 # ----------------------------------------------------------------------------------------------
@@ -158,6 +196,60 @@ def corr_wcsplit(patterns, flagsets, nproc=16):
             p = patterns[len(patterns) // 2]
             samples.append({'pattern': p, 'flags': flag_names(fv), 'pieces': list(W.WcSplit(p, fv).split())})
     return result(evals, len(nontriv), dis, samples)
+
+
+# ----------------------------------------------------------------------------------------------
+# glob._GlobSplit.split (Unix rules): exact part lists
+# ----------------------------------------------------------------------------------------------
+
+def impl_gsplit(p, fv, isb):
+    """_GlobSplit(p, flags).split() with the compiled matcher of magic parts replaced by its source text."""
+    from wcmatch import glob as G
+    orig = G._wcparse._compile
+    G._wcparse._compile = lambda value, flags: value
+    try:
+        pp = p.encode('latin-1') if isb else p
+        parts = G._GlobSplit(pp, fv).split()
+        out = []
+        for g in parts:
+            t = g.pattern.decode('latin-1') if isinstance(g.pattern, bytes) else g.pattern
+            out.append('%s:%d%d%d%d%d' % (enc(t), g.is_magic, g.is_globstar, g.is_globstarlong, g.dir_only, g.is_drive))
+        return 'ok ' + (','.join(out) if out else '[]')
+    except ValueError:
+        return 'valueerror'
+    except Exception as e:
+        return 'EXC ' + type(e).__name__
+    finally:
+        G._wcparse._compile = orig
+
+
+def corr_gsplit(patterns, flagsets, bytes_modes=(0, 1), nproc=16):
+    import_impl()
+    m = Model()
+    dis = []
+    evals = 0
+    nontriv = set()
+    samples = []
+    shapes = {}
+    for fv in flagsets:
+        for isb in bytes_modes:
+            pats = [p for p in patterns if not (isb and any(ord(c) > 255 for c in p))]
+            outs = m.run(['gsplit %d %d %s' % (fv, isb, enc(p)) for p in pats], nproc=nproc)
+            for p, o in zip(pats, outs):
+                exp = impl_gsplit(p, fv, isb)
+                evals += 1
+                if o != exp:
+                    dis.append({'kind': 'gsplit', 'pattern': p, 'flags': fv, 'flag_names': flag_names(fv), 'bytes': bool(isb),
+                                'impl': exp, 'model': o})
+                else:
+                    n = o.count(',') + 1 if o.startswith('ok ') and o != 'ok []' else 0
+                    shapes[n] = shapes.get(n, 0) + 1
+                    if n > 1:
+                        nontriv.add((fv, p))
+            if pats and len(samples) < 4:
+                p = pats[len(pats) // 2]
+                samples.append({'pattern': p, 'flags': flag_names(fv), 'parts': impl_gsplit(p, fv, isb)})
+    return result(evals, len(nontriv), dis, samples, {'parts_per_pattern': {str(k): v for k, v in sorted(shapes.items())}})
 
 
 # ----------------------------------------------------------------------------------------------
